@@ -96,3 +96,27 @@ Theorem C04_text_history_independence : forall re_ok rm rn rr hcode text ns q q'
     snd (Purity.step rm rn rr hcode (Purity.run rm rn rr hcode h (mkExpr q [])) o) = snd (Purity.step rm rn rr hcode (mkExpr q' []) o).
 Proof. exact C04_text_history_independent. Qed.
 Print Assumptions C04_text_history_independence.
+
+(* ------------------------------------------------------------------ *)
+(* CURSOR LEVEL, Clone and the API layer (Model1/Clone3.v transliterates every Clone method of
+   query.go; Proofs/ApiRefine3.v models Expr.Select / Expr.Evaluate / NodeIterator.MoveNext over
+   it): a clone of ANY state of a query tree starts afresh, and after ANY history of Select /
+   Evaluate calls with partial consumption — and arbitrary tampering with the shared tree
+   (OpDirty3) — a call observes the list-level answer.  This is the theorem of Proofs/Purity.v
+   with the clone-based implementation in place of the assumption that the API runs clones. *)
+From XP.Model1 Require Import Clone3.
+From XP.Proofs Require Import IterRefine4 CloneRefine3 ApiRefine3.
+
+Theorem C04_cursor_level_clone_forgets : forall D has_ns hc rm rn rr q (wf : m1_supported4 q = true) c l,
+  sel D has_ns hc rm rn rr q c = Val l ->
+  exists F0, forall F n, F0 <= F -> List.length l < n -> forall s,
+    exists st', run3 D has_ns hc rm rn rr F n (clone3 (existT _ q s)) c = (l, E_nil, st', c).
+Proof. exact clone_forgets3. Qed.
+Print Assumptions C04_cursor_level_clone_forgets.
+
+Theorem C04_cursor_level_api_history_independent : forall rm rn rr hcode q (wf : m1_supported4 q = true) o ob,
+  expected rm rn rr hcode q o = Some ob ->
+  exists F0, forall F, F0 <= F -> forall (h : list (op3 q)) (e0 : state3 q),
+    snd (step3 rm rn rr hcode q F (run_api3 rm rn rr hcode q F h e0) o) = ob.
+Proof. exact api_history_independent3. Qed.
+Print Assumptions C04_cursor_level_api_history_independent.
